@@ -157,6 +157,14 @@ Theorem C04_validate_sound : forall (P : Type) (plen : P -> Z) (peqb : P -> P ->
 Proof. exact validate_sound. Qed.
 Print Assumptions C04_validate_sound.
 
+(* ... and every IPv4 frame of an accepted trace was addressed on the link as Ipv4Session::send decides:
+   a datagram for 255.255.255.255 to the broadcast MAC, otherwise to the MAC of the route of the local
+   address (all taps when the route has none and the machine has no ARP) *)
+Theorem C04_validate_link_dst : forall (P : Type) (plen : P -> Z) (peqb : P -> P -> bool) c tr f,
+  validate plen peqb c tr = 0 -> In f (tr_frames tr) -> frame_to_ok peqb c f = true.
+Proof. exact validate_frames_to. Qed.
+Print Assumptions C04_validate_link_dst.
+
 (* the hypotheses are satisfiable, and the validator is not vacuous: a two-machine scenario (machine 0
    binds application 1 on 10.0.0.1:5000 and application 2 on 0.0.0.0:5000 and 0.0.0.0:5001; machine 1
    broadcasts on the link a datagram for 10.0.0.1:5000 and one for 10.0.0.9:5001) is accepted with the
